@@ -732,7 +732,7 @@ def run_document(src, tier, seed, only=None):
 
     # CPU budget per document (big.ods: every snapshot is a C14N of a 1.5 MB tree): what is not reached is counted
     t_start = time.process_time()
-    total = 24 if tier == "quick" else 150
+    total = 24 if tier == "quick" else 100
     first_pass = total * 2 / 3
     for idx, ent in enumerate(ents):
         if only is None and time.process_time() - t_start > first_pass:
@@ -740,7 +740,7 @@ def run_document(src, tier, seed, only=None):
             break
         one(idx, ent, True)
         res["entries_done"] += 1
-    orders = 1 if tier == "quick" else 3
+    orders = 1 if tier == "quick" else 2
     for _ in range(orders if only is None else 0):
         order = [i for i in range(len(ents)) if i in answers]; rng.shuffle(order)
         for idx in order:
@@ -984,7 +984,7 @@ def run(tier, seed, replay=None):
              "objects per document: the document, body, meta, styles/content/manifest/settings parts, the first tables (first and last row, first cell), the first element(s) of every tag; "
              "per object: every property + every zero-argument method whose name matches the read pattern + the explicit argument list; every call twice, then again in %d shuffled order(s); snapshot compared after EVERY call. "
              "distinct_nontrivial = distinct (class, entry point) pairs that returned normally at least once"
-             % (sorted(BIG), sum(1 for s in srcs if s["id"].startswith("generated:text")), sum(1 for s in srcs if s["id"].startswith("generated:sheet")), 1 if tier == "quick" else 3),
+             % (sorted(BIG), sum(1 for s in srcs if s["id"].startswith("generated:text")), sum(1 for s in srcs if s["id"].startswith("generated:sheet")), 1 if tier == "quick" else 2),
         samples=samples, documents=len(jobs), big_sheets_skipped=skipped_big, calls=calls, coq_cases=len(cases),
         objects_by_kind=dict(sorted(hist.items())), timeouts=sum(r["timeouts"] for r in results), reader_exceptions=sum(r["exceptions"] for r in results),
         slowest_documents=sorted(((r.get("cpu_s", 0), r["id"]) for r in results), reverse=True)[:5], documents_lost=lost, documents_cut_by_cpu_budget=[dict(document=r["id"], entries_done=r.get("entries_done"), entries=r["entries"]) for r in results if r.get("budget_exhausted")],
